@@ -270,7 +270,7 @@ func (e *Exec) callFn(fr *frame, st *State, c *ssa.CallCommon, fn *ssa.Function,
 	if name == "vcModGhostAll" {
 		if e.modCollect != nil {
 			if cst, ok := c.Args[0].(*ssa.Const); ok {
-				*e.modCollect = append(*e.modCollect, &Ptr{Kind: pModGhostAll, GhostName: constantString(cst)})
+				*e.modCollect = append(*e.modCollect, &Ptr{Kind: pModGhostAll, GhostName: ghostCanon(constantString(cst))})
 			}
 		}
 		return &Tuple{}, true
@@ -278,7 +278,7 @@ func (e *Exec) callFn(fr *frame, st *State, c *ssa.CallCommon, fn *ssa.Function,
 	if name == "vcModGhost" {
 		if e.modCollect != nil {
 			if cst, ok := c.Args[0].(*ssa.Const); ok {
-				gname := constantString(cst)
+				gname := ghostCanon(constantString(cst))
 				ref := e.asTerm(st, args[1], sig.Params().At(1).Type())
 				*e.modCollect = append(*e.modCollect, &Ptr{Kind: pModGhost, Ref: ref, GhostName: gname})
 			}
@@ -486,10 +486,7 @@ func (e *Exec) collectMods(st *State, ct *Contract, args []Value) ([]*Ptr, bool)
 // ghostLoad reads ghost state attached to an object: ghost_x(obj) is component G.ghost_x at obj.
 func (e *Exec) ghostLoad(st *State, fn *ssa.Function, args []Value) Value {
 	name := fn.Name()
-	if strings.HasPrefix(name, "ghost_closed") {
-		// ghost_closedXxx(c chan T): the closed flag of a channel of another element type (one flag for all)
-		name = "ghost_closed"
-	}
+	name = ghostCanon(name)
 	rs := e.ti.sortOf(fn.Signature.Results().At(0).Type())
 	ref := e.asTerm(st, args[0], fn.Signature.Params().At(0).Type())
 	e.ghostSorts[name] = rs
@@ -564,6 +561,7 @@ func (e *Exec) havocAllHeap(st *State) {
 
 // modularCall applies a contract at a call site: assert pre, havoc modifies, assume post.
 func (e *Exec) modularCall(st *State, ct *Contract, sig *types.Signature, args []Value, where string, calleeName string) (Value, bool) {
+	callerFrame, callerCall := e.curFrame, e.curCall
 	if ct.Attrs["lost"] != "" {
 		e.unsupported("contract of %s is unbound: %s", calleeName, ct.Attrs["lost"])
 	}
@@ -620,7 +618,9 @@ func (e *Exec) modularCall(st *State, ct *Contract, sig *types.Signature, args [
 		e.assume(st, g)
 	}
 	old := st.clone()
+	var panicState *State
 	mods, star := e.collectMods(st, ct, targs)
+	e.curFrame, e.curCall = callerFrame, callerCall // (evaluating clauses runs spec code, which has frames of its own)
 	if !ct.Pure {
 		// the callee may allocate (before the havoc: havocked locations may hold the new references)
 		na := e.smt.fresh("alloc", SInt)
@@ -670,6 +670,17 @@ func (e *Exec) modularCall(st *State, ct *Contract, sig *types.Signature, args [
 			}
 		}
 	}
+	if ct.MayPanic && e.spec == 0 && e.quant == 0 && e.curFrame != nil {
+		// the callee may panic instead of returning: that path unwinds the current frame (its effects so
+		// far — the havocked frame of the callee — stand; its postcondition does not hold)
+		pv := e.smt.fresh("panics", SBool)
+		ps := st.clone()
+		ps.pc = tAnd(st.pc, pv)
+		ps.pc = e.smt.define("pc", ps.pc)
+		e.curFrame.panicExits = append(e.curFrame.panicExits, ps)
+		st.pc = e.smt.define("pc", tAnd(st.pc, tNot(pv)))
+		panicState = ps
+	}
 	if ct.Attrs["calls-arg"] != "" {
 		// the callee may invoke a function argument any number of times: everything that function can
 		// change is havocked (its captured variables that it assigns, and the heap)
@@ -678,8 +689,22 @@ func (e *Exec) modularCall(st *State, ct *Contract, sig *types.Signature, args [
 			if !ok {
 				continue
 			}
-			e.havocAllHeap(st)
 			ms := &modSet{cells: map[*ssa.Alloc]bool{}, comps: map[string]string{}, iters: map[*ssa.Range]bool{}}
+			seenFns := map[*ssa.Function]bool{}
+			for _, b := range cl.Fn.Blocks {
+				e.scanMods(cl.Fn, b.Instrs, ms, seenFns, nil)
+			}
+			if ms.all {
+				e.havocAllHeap(st)
+			} else {
+				// every callee of the function argument has a frame: only those components can change
+				for _, k := range sortedKeys(ms.comps) {
+					st.heap[k] = e.smt.fresh("hv."+k, ms.comps[k])
+				}
+				na := e.smt.fresh("alloc", SInt)
+				e.assume(st, tLe(st.alloc, na))
+				st.alloc = na
+			}
 			for _, b := range cl.Fn.Blocks {
 				for _, in := range b.Instrs {
 					if sti, ok := in.(*ssa.Store); ok {
@@ -742,6 +767,15 @@ func (e *Exec) modularCall(st *State, ct *Contract, sig *types.Signature, args [
 	all := append(append([]Value{}, targs...), rvals...)
 	for _, cl := range ct.Ensures {
 		if cl.GenFn == "" {
+			continue
+		}
+		if cl.Label == "onpanic" {
+			// what is known when the callee panicked instead of returning (results are meaningless there)
+			if panicState != nil {
+				if g, ok := e.evalSpec(panicState, ct.PkgPath, cl.GenFn, all, old); ok {
+					e.assume(panicState, g)
+				}
+			}
 			continue
 		}
 		g, ok := e.evalSpec(st, ct.PkgPath, cl.GenFn, all, old)
@@ -901,6 +935,7 @@ func (e *Exec) pureAxioms(ct *Contract, sig *types.Signature) {
 
 // invoke: interface method call, by interface contract.
 func (e *Exec) invoke(fr *frame, st *State, c *ssa.CallCommon, recv Value, args []Value, where string) (Value, bool) {
+	e.curCall, e.curFrame = c, fr
 	it := c.Value.Type()
 	key := ""
 	if n, ok := it.(*types.Named); ok && n.Obj().Pkg() != nil {
@@ -1127,4 +1162,13 @@ func hasCycle(fn *ssa.Function) bool {
 		return false
 	}
 	return dfs(fn.Blocks[0])
+}
+
+// ghostCanon: ghost_closedXxx(c chan T) are names for the one closed flag of channels (Go has no
+// generic ghost function here: one declaration per element type).
+func ghostCanon(name string) string {
+	if strings.HasPrefix(name, "ghost_closed") {
+		return "ghost_closed"
+	}
+	return name
 }
